@@ -195,14 +195,16 @@ def run(repo: Repo, rep: Report, tier: str) -> None:
     # ---------------------------------------------------------------- R6.4 alias generators
     D_sets: Dict[str, Set[int]] = {}
     for spec in ("visit.exception_visitor:ExceptionVisitor.visit", "emitters.exceptions_emitter:ExceptionsEmitter._generate_for_codes"):
-        fn = repo.func(spec)
+        from sa.resolve import follow_delegation
+
+        fn = follow_delegation(repo, repo.func(spec))  # `_generate_for_codes` may hand the rendering to the visitor's shared routine
         _res: Dict[str, Set[int]] = {}
 
         def _alias_body(f: Function, r, _spec=spec, _res=_res) -> None:
             _res["D"] = _alias_generator_rules(f, helpers, r)
 
         with_flatten_fallback(rep, fn, _alias_body)
-        D_sets[spec] = _res.get("D", set())
+        D_sets[spec] = _res.get("D", set())  # None: the generator's base-class choice was not recognised (reported as an analysis error)
     # ---------------------------------------------------------------- R6.6 the alias classes a client raises stay importable when the core is shared
     # (the shared-core predicate of C11: a client that is wrongly judged "not shared" never enters the registry and loses its
     #  exception classes when the next client is generated - its operations can then no longer raise the package's error classes)
@@ -234,6 +236,8 @@ def run(repo: Repo, rep: Report, tier: str) -> None:
     E = _eres.get("E", set())
     for spec, D in D_sets.items():
         fn = repo.func(spec)
+        if D is None:
+            continue
         sub = f"alias agreement: handler raises aliases for {fmt(E)} / {fn.qualname} defines {fmt(D)}"
         missing = E - D
         if missing:
@@ -343,6 +347,8 @@ def _alias_generator_rules(fn: Function, helpers: Dict[str, ast.AST], rep: Repor
                 codes &= s
             base_sets[val] = base_sets.get(val, set()) | codes
     rep.require(n_assign >= 2, f"R6.4: {fn.qualname} has {n_assign} base_class assignments (floor 2)")
+    if n_assign < 2:
+        return None  # type: ignore[return-value]  (the base-class choice was not recognised: nothing below can be judged)
     want = {"ClientError": set(range(400, 500)), "ServerError": set(range(500, 600))}
     for b, w in want.items():
         got = base_sets.get(b, set())
